@@ -15,10 +15,6 @@ type err_kind =
 | TypeError
 
 type panic_site =
-| PSPopUnwrap
-| PSLimitUnwrap
-| PSOffsetUnwrap
-| PSStripRange
 | PSStripBoundary
 | PSFloatUnwrap
 
@@ -194,9 +190,9 @@ val parse_i64 : bytes -> coq_Z option
 
 val is_char_boundary : bytes -> nat -> bool
 
-val is_quote : coq_N -> bool
+val last_byte : bytes -> coq_N option
 
-val starts_with_quote : bytes -> bool
+val quoted_by : coq_N -> bytes -> bool
 
 val strip_quotes : bytes -> bytes result
 
@@ -326,14 +322,6 @@ val normalize :
 val parse_and_normalize :
   parsed -> ((normal_form * normal_form option) * result_column list) result
 
-type slice_outcome =
-| Slice of coq_N * coq_N
-| SlicePanic
+val output_slice : coq_N -> coq_N -> coq_N -> coq_N * coq_N
 
-val output_slice : coq_N -> coq_N -> coq_N -> slice_outcome
-
-type sum_outcome =
-| Sum of coq_N
-| SumPanic
-
-val combined_limit : bool -> coq_N -> coq_N -> sum_outcome
+val combined_limit : coq_N -> coq_N -> coq_N
